@@ -179,6 +179,22 @@ def r2_accumulate_then_flush(ctx: Ctx) -> None:
         ctx.fail("Program.emit:address-after-flush", "the block address is not re-read in the *= arm")
     # append happens before the flush arm in the loop body (the position node itself emits nothing)
     ctx.check(all(lp.body.index(_top(lp, a)) < idx_flush for a in appended), "Program.emit:append-before-flush", "bytes are appended before the flush test of the same node")
+    reset_offset(ctx)
+
+
+def reset_offset(ctx: Ctx) -> None:
+    """label resolution and emission both start from the offset the resolver was created with: resolver_reset puts the output offset
+    back to the constructor's default (0), so a program without `*=` is written from the start of the file"""
+    rr = ctx.repo.func(PROGRAM, "Program.resolver_reset")
+    init = ctx.repo.func("a816.symbols", "Resolver.__init__")
+    from ..match import const_int as _ci3
+
+    d = init.node.args.defaults
+    default_pc = _ci3(d[0]) if d else None
+    sets = [n for n in walk_no_nested(rr.node) if isinstance(n, ast.Assign) and unparse(n.targets[0]).endswith("resolver.pc")]
+    if len(sets) != 1 or default_pc is None:
+        raise AnalysisError("resolver_reset: assignment of resolver.pc / Resolver default pc not found")
+    ctx.check(_ci3(sets[0].value) == default_pc, "resolver_reset:pc", f"the output offset is reset to the resolver's initial offset {default_pc}; it is reset to {unparse(sets[0].value)}")
 
 
 def _initial(fn: ast.FunctionDef, st: ast.stmt) -> bool:
